@@ -243,23 +243,39 @@ def intsetAll (data : Bytes) : Option (List Bytes) :=
     | none => none
     | some (lb, r1) => intsetLoop width (ofLE lb) r1
 
-/-! ## zipmap (hashes of Redis < 2.6; small items only) -/
+/-! ## zipmap (hashes of Redis < 2.6) — every item length and item count
+
+  Layout (zipmap.c as Redis 2.2 … 8.x read it: `ZIPMAP_BIGLEN 254`, `ZIPMAP_END 255`):
+  `<zmlen><len>field<len><free>value<free bytes>…<0xFF>`; `<len>` is one byte for
+  lengths 0..253, else `254` followed by the length as 4 bytes LITTLE endian;
+  `<zmlen>` is the number of pairs, or 254 = "254 or more, walk the map".
+  Model of the REPAIRED reader (session 5: the code read `253` as the big-length
+  marker followed by 5 bytes (4 big-endian length bytes + the free byte, also for a
+  field, which has none), refused `254`, and after counting a map of >= 254 pairs
+  it went back to the `<zmlen>` byte and used the item count as the pair count).
+  `SliceBuffer.Seek` refuses positions >= 2^31: the model (which keeps the rest of
+  the buffer, not the position) equals the code for blobs below 2 GiB - 255. -/
 
 /-- reader.go `readZipmapItemLength`: `(length, free)`; length `none` = end (255) -/
 def zmItemLength (readFree : Bool) : Bytes → Option ((Option Nat × Nat) × Bytes)
   | [] => none
   | b :: r =>
-    if b = 253 then
-      match readN 5 r with
+    if b = 255 then some ((none, 0), r)
+    else
+      let lenr : Option (Nat × Bytes) :=
+        if b = 254 then
+          match readN 4 r with
+          | none => none
+          | some (s, r1) => some (ofLE s, r1)
+        else some (b.toNat, r)
+      match lenr with
       | none => none
-      | some (s, r1) => some ((some (ofBE (s.take 4)), (s.getD 4 0).toNat), r1)
-    else if b = 254 then none
-    else if b = 255 then some ((none, 0), r)
-    else if readFree then
-      match r with
-      | [] => none
-      | f :: r1 => some ((some b.toNat, f.toNat), r1)
-    else some ((some b.toNat, 0), r)
+      | some (n, r1) =>
+        if readFree then
+          match r1 with
+          | [] => none
+          | f :: r2 => some ((some n, f.toNat), r2)
+        else some ((some n, 0), r1)
 
 /-- `ReadZipmapItem`: Go returns `nil` at the end marker (sent as an empty
     argument); `value := buf.Slice(length); buf.Seek(free, 1)` -/
@@ -285,21 +301,40 @@ def zmPairs : Nat → Bytes → Option (List (Bytes × Bytes))
         | none => none
         | some ps => some ((f, v) :: ps)
 
-/-- `HashPaser.zipmap` for a length byte below 254 (the counting path for
-    ≥ 254 items is not modelled: Redis 4.0–8.x never writes zipmaps) -/
+/-- `CountZipmapItems`: the number of ITEMS (fields and values) up to the end
+    marker; `n` = items seen so far (an odd item is a value and has a free byte);
+    every round consumes a byte, fuel = buffer length + 1 -/
+def zmCount : Nat → Nat → Bytes → Option Nat
+  | 0, _, _ => none
+  | fuel+1, n, bs =>
+    match zmItemLength (n % 2 != 0) bs with
+    | none => none
+    | some ((none, _), _) => some n
+    | some ((some l, free), r) => zmCount fuel (n + 1) (r.drop (l + free))
+
+/-- `HashPaser.zipmap`: the `<zmlen>` byte gives the number of pairs, 254 (or
+    255) = walk the map, count its items and halve (an odd count is refused) -/
 def zipmapAll (data : Bytes) : Option (List (Bytes × Bytes)) :=
   match data with
   | [] => none
-  | lenByte :: r => if lenByte.toNat ≥ 254 then none else zmPairs lenByte.toNat r
+  | lenByte :: r =>
+    if lenByte.toNat ≥ 254 then
+      match zmCount (data.length + 1) 0 r with
+      | none => none
+      | some n => if n % 2 ≠ 0 then none else zmPairs (n / 2) r
+    else zmPairs lenByte.toNat r
+
+/-- zipmap.c `zipmapEncodeLength` -/
+def zmLen (l : Nat) : Bytes := if l < 254 then [UInt8.ofNat l] else 254 :: leN 4 l
 
 /-- one zipmap item: `<len>field<len><free>value<free bytes>` -/
 def zipmapItem (i : Bytes × Bytes × Nat) : Bytes :=
-  UInt8.ofNat i.1.length :: (i.1 ++ UInt8.ofNat i.2.1.length :: UInt8.ofNat i.2.2 :: (i.2.1 ++ List.replicate i.2.2 0))
+  zmLen i.1.length ++ (i.1 ++ (zmLen i.2.1.length ++ UInt8.ofNat i.2.2 :: (i.2.1 ++ List.replicate i.2.2 0)))
 
-/-- zipmap.c layout, items shorter than 253 bytes, `free` bytes of slack after a value:
+/-- zipmap.c layout, `free` bytes of slack after a value:
     `<zmlen><len>field<len><free>value<free bytes>...<0xFF>` -/
 def zipmapBlob (items : List (Bytes × Bytes × Nat)) : Bytes :=
-  UInt8.ofNat items.length ::
+  UInt8.ofNat (if items.length < 254 then items.length else 254) ::
     (items.flatMap zipmapItem ++ [0xFF])
 
 end GunYu.Rdb
